@@ -519,6 +519,8 @@ EXPR_CTX = {
     "case_inline": "match subj:\n    case 0: {E}\n    case _: pass",
     "cadd_rhs": "x += {E}",
     "csub_rhs": "x -= {E}",
+    "csub_field_rhs": "a.f -= {E}",
+    "cmul_index_rhs": "xs[0] *= {E}",
     "field_assign_rhs": "o.f = {E}",
     "index_assign_rhs": "xs[0] = {E}",
     "index_assign_idx": "xs[{E}] = 0",
